@@ -87,6 +87,31 @@ class Repo:
 
     # ------------------------------------------------------------------
     def _load(self):
+        # attribute names assigned as `<something>.NAME = ...` anywhere in the package: a module constant of that name may be
+        # replaced from outside (events.noop, variables.schemas ...) and is never treated as a literal by the canonical form
+        stored_attrs = set()
+        for p in sorted(self.src.rglob("*.py")):
+            try:
+                for n in ast.walk(ast.parse(p.read_text(encoding="utf-8"))):
+                    if isinstance(n, ast.Attribute) and isinstance(n.ctx, (ast.Store, ast.Del)):
+                        stored_attrs.add(n.attr)
+                    elif isinstance(n, ast.Call) and isinstance(n.func, ast.Name) and n.func.id in ("setattr", "delattr") and len(n.args) >= 2 and isinstance(n.args[1], ast.Constant):
+                        stored_attrs.add(n.args[1].value)
+            except SyntaxError:
+                pass
+        # private names of the pinned tree that this tree spells differently are renamed back first (relocate.py)
+        parsed = {}
+        for p in sorted(self.src.rglob("*.py")):
+            rel = p.relative_to(self.root).as_posix()
+            try:
+                parsed[rel] = ast.parse(p.read_text(encoding="utf-8"), filename=str(p))
+            except SyntaxError as e:
+                raise AnalysisError(f"cannot parse {rel}: {e}")
+        self.relocated = []
+        if os.environ.get("PYHFSA_NO_RELOCATE") != "1":
+            from . import relocate
+            self.relocated = relocate.plan(parsed)
+            relocate.apply(parsed, self.relocated)
         for p in sorted(self.src.rglob("*.py")):
             rel = p.relative_to(self.root).as_posix()
             parts = list(p.relative_to(self.root / "src").with_suffix("").parts)
@@ -94,12 +119,9 @@ class Repo:
                 parts = parts[:-1]
             name = ".".join(parts)
             src = p.read_text(encoding="utf-8")
-            try:
-                tree = ast.parse(src, filename=str(p))
-            except SyntaxError as e:
-                raise AnalysisError(f"cannot parse {rel}: {e}")
+            tree = parsed[rel]
             if os.environ.get("PYHFSA_NO_CANON") != "1":
-                canonicalise(tree)  # temporaries, append loops and if/else assignments in their expression form (see canon.py)
+                canonicalise(tree, stored_attrs)  # module constants, temporaries, append loops and if/else assignments in their expression form (see canon.py)
             m = Module(name=name, relpath=rel, path=p, source=src, tree=tree)
             self._index(m)
             self.modules[name] = m
@@ -179,6 +201,10 @@ class Repo:
     def func(self, relpath: str, qualname: str) -> Func:
         m = self.module(relpath)
         f = m.funcs.get(qualname)
+        if f is None and "." not in qualname:
+            kind, obj = self.resolve_name(m, qualname)  # moved to another module of the package and imported back
+            if kind == "func":
+                return obj
         if f is None:
             raise AnalysisError(f"anchor vanished: function {relpath}::{qualname}")
         return f
